@@ -11,6 +11,7 @@ from rv import core, zoo
 from rv.refmodels import logicle as ref
 
 LEVEL = 'exploration'
+LEVEL_TEXT = 'Contract on the logicle transform against an independent reference (bisection root, extended-precision biexponential): forward values, monotonicity, zero at W, inverse round trip and monotonicity, documented derivation rules from data, refusals, and a real matplotlib axis. Exploration over a lattice + random triples.'
 TECHNIQUE = 'runtime contract on the logicle transform vs an independent extended-precision biexponential and bisection root'
 RULE = ('lattice T in {1,10,1023,2^18,1e6,1e8} x M in {0.2..12} x W/M in {0,1e-9,..,1.5} plus random triples; display '
         'coordinates on a 2001-point grid of [0,M]; invalid triples; parameters derived from data sets with/without '
